@@ -212,6 +212,7 @@ func (e *Engine) loadSpecs(externDir string) error {
 				old.Guarded = append(old.Guarded, t.Guarded...)
 				old.Final = append(old.Final, t.Final...)
 				old.FinalTags = append(old.FinalTags, t.FinalTags...)
+				old.FinalDecls = append(old.FinalDecls, t.FinalDecls...)
 				old.Private = append(old.Private, t.Private...)
 				old.Owns = append(old.Owns, t.Owns...)
 				old.Inits = append(old.Inits, t.Inits...)
